@@ -61,7 +61,7 @@ func c02GoSummary(file []byte) (string, error) {
 }
 
 func RunC02(ctx *core.Ctx) {
-	ctx.SetRule("files written from catalogue struct types under random configurations (page version, codec (40 % of the cases force none or snappy file-wide; fields keep their own codec/encoding tags), page/row-group/dictionary limits, statistics, bloom filters), by GenericWriter, by a writer reused through Reset, and through WriteRowGroup from a file or a buffer; each file is parsed by the Lean spec reader (thrift compact, footer, page headers at the announced offsets, offset/column index) which re-derives the layout numbers with the proved accounting model and, for uncompressed and snappy chunks, decompresses (spec Snappy reader) and decodes every page with the spec decoders (levels, dictionary, PLAIN/RLE/DELTA_*/BYTE_STREAM_SPLIT values) comparing decoded counts with the headers and indexes; the decoded Dremel streams (file.dump) are compared column by column with the reference shredder's streams of the rows written (columns with a chunk in another codec are skipped and counted); non-trivial = more than one page in some chunk or more than one row group")
+	ctx.SetRule("files written from catalogue struct types under random configurations (page version, codec (40 % of the cases force none, snappy or gzip file-wide; fields keep their own codec/encoding tags), page/row-group/dictionary limits, statistics, bloom filters), by GenericWriter, by a writer reused through Reset, and through WriteRowGroup from a file or a buffer; each file is parsed by the Lean spec reader (thrift compact, footer, page headers at the announced offsets, offset/column index) which re-derives the layout numbers with the proved accounting model and, for uncompressed, snappy and gzip chunks, decompresses (spec Snappy reader, spec inflate/gunzip) and decodes every page with the spec decoders (levels, dictionary, PLAIN/RLE/DELTA_*/BYTE_STREAM_SPLIT values) comparing decoded counts with the headers and indexes; the decoded Dremel streams (file.dump) are compared column by column with the reference shredder's streams of the rows written (columns with a chunk in another codec are skipped and counted); non-trivial = more than one page in some chunk or more than one row group")
 	tmp := filepath.Join(".build", "tmp", fmt.Sprintf("c02-%s-%d", ctx.Variant, os.Getpid()))
 	os.MkdirAll(tmp, 0o755)
 	defer os.RemoveAll(tmp)
@@ -117,11 +117,11 @@ func RunC02(ctx *core.Ctx) {
 					opts = append(append([]parquet.WriterOption{}, opts...), parquet.BloomFilters(fs...))
 					desc += " bloom"
 				}
-				// value-level agreement covers uncompressed and snappy chunks: force one of the two
+				// value-level agreement covers uncompressed, snappy and gzip chunks: force one of them
 				// file-wide in 40 % of the cases (a later option overrides the earlier one; fields
 				// carrying their own codec tag keep it)
 				if x := r.Intn(10); x < 4 || k == 1 {
-					name := []string{"none", "snappy"}[x%2]
+					name := []string{"none", "snappy", "gzip", "snappy"}[x%4]
 					opts = append(append([]parquet.WriterOption{}, opts...), parquet.Compression(gen.Codecs[name]))
 					desc += " filecodec=" + name
 				}
@@ -158,7 +158,7 @@ func RunC02(ctx *core.Ctx) {
 					if i := strings.Index(sum, "decoded="); i >= 0 {
 						var decoded, capped int
 						fmt.Sscanf(sum[i:], "decoded=%d capped=%d", &decoded, &capped)
-						ctx.HistN("data-pages", "value-decoded (none/snappy)", int64(decoded))
+						ctx.HistN("data-pages", "value-decoded (none/snappy/gzip)", int64(decoded))
 						ctx.HistN("data-pages", "structural only (other codec)", int64(data-decoded-capped))
 						ctx.HistN("data-pages", "capped", int64(capped))
 					}
